@@ -108,7 +108,7 @@ static int MAXCELLS = 400;
 static Case draw() {
     Case c;
     c.res = ri(0, 15);
-    c.g = pq::drawPoly(c.res, MAXCELLS, true);
+    c.g = pq::drawPoly(c.res, MAXCELLS, true, -1, -1, true);
     return c;
 }
 
